@@ -47,6 +47,9 @@ pub struct ClientCase {
     /// true: dicom-rs is the acceptor (ServerAssociation) and the harness plays the requestor
     #[serde(default)]
     pub server: bool,
+    /// strict(false) on the dicom-rs side (lenient PDU reading); default strict
+    #[serde(default)]
+    pub lenient: bool,
     pub async_client: bool,
     pub api: Vec<ApiOp>,
     pub peer: Vec<PeerOp>,
@@ -94,7 +97,7 @@ fn ul_kind(p: &Pdu) -> (String, Vec<u8>) {
 /// run the API script on a dicom-rs client association connected to `addr`
 fn run_client(c: &ClientCase, addr: std::net::SocketAddr) -> Result<Vec<ApiResult>, String> {
     let t = Duration::from_millis(400);
-    let o = ClientAssociationOptions::new().calling_ae_title("VERIF-SCU").called_ae_title("VERIF-SCP").with_presentation_context(VERIFICATION, vec![IMPLICIT]).read_timeout(t).write_timeout(t).connection_timeout(t);
+    let o = ClientAssociationOptions::new().calling_ae_title("VERIF-SCU").called_ae_title("VERIF-SCP").with_presentation_context(VERIFICATION, vec![IMPLICIT]).strict(!c.lenient).read_timeout(t).write_timeout(t).connection_timeout(t);
     let mut out = vec![];
     let data_pdu = |n: u16, i: usize| Pdu::PData { data: vec![PDataValue { presentation_context_id: 1, value_type: PDataValueType::Data, is_last: true, data: payload(n as u32 % 3000, 100 + i as u8) }] };
     let es = |e: dicom_ul::association::Error| crate::img::errs(&e);
@@ -168,7 +171,7 @@ fn run_client(c: &ClientCase, addr: std::net::SocketAddr) -> Result<Vec<ApiResul
 fn run_server(c: &ClientCase, listener: &TcpListener) -> Result<Vec<ApiResult>, String> {
     use dicom_ul::association::server::ServerAssociationOptions;
     let t = Duration::from_millis(400);
-    let o = ServerAssociationOptions::new().accept_any().ae_title("VERIF-SCP").with_abstract_syntax(VERIFICATION).read_timeout(t).write_timeout(t);
+    let o = ServerAssociationOptions::new().accept_any().ae_title("VERIF-SCP").with_abstract_syntax(VERIFICATION).strict(!c.lenient).read_timeout(t).write_timeout(t);
     let mut out = vec![];
     let data_pdu = |n: u16, i: usize| Pdu::PData { data: vec![PDataValue { presentation_context_id: 1, value_type: PDataValueType::Data, is_last: true, data: payload(n as u32 % 3000, 100 + i as u8) }] };
     let es = |e: dicom_ul::association::Error| crate::img::errs(&e);
@@ -253,6 +256,9 @@ fn check_client(c: &ClientCase, obs: &mut Obs) {
         (true, true) => "async-server",
         (true, false) => "sync-server",
     });
+    if c.lenient {
+        obs.class("strict(false)");
+    }
     // the scripted peer (acceptor for a dicom-rs requestor, requestor for a dicom-rs acceptor)
     let client_done = std::sync::atomic::AtomicBool::new(false);
     let client_done = &client_done;
@@ -651,15 +657,15 @@ pub fn run(ctx: &Ctx) {
     ctx.assume("schedules are chosen by the generator (the harness plays one peer); the TLA+ model named in the property's quantifier text is not built (different technique family); socket time-outs only bound a run");
     ctx.run_prop(
         "client_vs_scripted_acceptor",
-        "dicom-rs ClientAssociation (sync and async) driven by a generated API script of {send P-DATA, receive, release, abort} (1-6 calls) against an acceptor played by the harness from a generated script of {P-DATA, A-RELEASE-RQ, A-RELEASE-RP, A-ABORT, unknown PDU, half a PDU, close, wait, pause} (0-7 actions); oracle (PS3.8 Sta6-Sta13 restricted to what is observable): the k-th consuming call sees the k-th PDU the acceptor sent; release() is Ok only when the PDU answering the request is an A-RELEASE-RP and fails otherwise; dicom-rs puts on the wire exactly the PDUs its API calls account for, nothing after a release request or abort; the connection is closed when the association object is gone; non-trivial = a release racing with peer activity",
-        || (any::<bool>(), proptest::collection::vec(prop_oneof![2 => any::<u16>().prop_map(ApiOp::Send), 3 => Just(ApiOp::Receive), 3 => Just(ApiOp::Release), 1 => Just(ApiOp::Abort)], 1..=6), peer_ops(8)).prop_map(|(async_client, api, peer)| ClientCase { server: false, async_client, api, peer }).boxed(),
+        "dicom-rs ClientAssociation (sync and async, strict or in ~30% strict(false)) driven by a generated API script of {send P-DATA, receive, release, abort} (1-6 calls) against an acceptor played by the harness from a generated script of {P-DATA, A-RELEASE-RQ, A-RELEASE-RP, A-ABORT, unknown PDU, half a PDU, close, wait, pause} (0-7 actions); oracle (PS3.8 Sta6-Sta13 restricted to what is observable): the k-th consuming call sees the k-th PDU the acceptor sent; release() is Ok only when the PDU answering the request is an A-RELEASE-RP and fails otherwise; dicom-rs puts on the wire exactly the PDUs its API calls account for, nothing after a release request or abort; the connection is closed when the association object is gone; non-trivial = a release racing with peer activity",
+        || (any::<bool>(), proptest::collection::vec(prop_oneof![2 => any::<u16>().prop_map(ApiOp::Send), 3 => Just(ApiOp::Receive), 3 => Just(ApiOp::Release), 1 => Just(ApiOp::Abort)], 1..=6), peer_ops(8), proptest::bool::weighted(0.3)).prop_map(|(async_client, api, peer, lenient)| ClientCase { server: false, lenient, async_client, api, peer }).boxed(),
         ctx.cases(1_500, 25_000),
         check_client,
     );
     ctx.run_prop(
         "server_vs_scripted_requestor",
         "dicom-rs ServerAssociation (sync and async; established through ServerAssociationOptions::establish / establish_async on an accepted socket) driven by the same kind of API script (the async acceptor can also request a release; on the sync acceptor, which has no release(), that call is carried out as abort) against a requestor played by the harness from a generated script; same oracle as for the client: k-th consuming call sees the k-th PDU, release() Ok only on an A-RELEASE-RP, only the PDUs the API calls account for appear on the wire and nothing after a release request or abort, the connection is closed when the association object is gone; non-trivial = a release/abort racing with peer activity",
-        || (any::<bool>(), proptest::collection::vec(prop_oneof![2 => any::<u16>().prop_map(ApiOp::Send), 3 => Just(ApiOp::Receive), 3 => Just(ApiOp::Release), 1 => Just(ApiOp::Abort)], 1..=6), peer_ops(8)).prop_map(|(async_client, api, peer)| ClientCase { server: true, async_client, api, peer }).boxed(),
+        || (any::<bool>(), proptest::collection::vec(prop_oneof![2 => any::<u16>().prop_map(ApiOp::Send), 3 => Just(ApiOp::Receive), 3 => Just(ApiOp::Release), 1 => Just(ApiOp::Abort)], 1..=6), peer_ops(8), proptest::bool::weighted(0.3)).prop_map(|(async_client, api, peer, lenient)| ClientCase { server: true, lenient, async_client, api, peer }).boxed(),
         ctx.cases(1_000, 15_000),
         check_client,
     );
